@@ -974,8 +974,8 @@ MUTANTS = [
       "RefLine\n    nnodes = 4", "              [2, 3],\n              "
       "[1, 3]]\n    brefdom = RefLine\n    nnodes = 4"), "C11-R2"),
     ("interior nodes complement taken in the number of facets",
-     (FM, "        return np.setdiff1d(np.arange(0, self.p.shape[1]),\n"
-      "                            self.boundary_nodes())",
+     (FM, "        return np.setdiff1d(np.unique(self.t), "
+      "self.boundary_nodes())",
       "        return np.setdiff1d(np.arange(0, self.nfacets),\n"
       "                            self.boundary_nodes())"), "C11-R4"),
     ("boundary nodes read from all facets",
@@ -985,8 +985,8 @@ MUTANTS = [
 ]
 TWINS = [
     ("interior nodes written with nvertices",
-     (FM, "        return np.setdiff1d(np.arange(0, self.p.shape[1]),\n"
-      "                            self.boundary_nodes())",
+     (FM, "        return np.setdiff1d(np.unique(self.t), "
+      "self.boundary_nodes())",
       "        return np.setdiff1d(np.arange(self.nvertices),\n"
       "                            self.boundary_nodes())")),
     ("build_entities reshape with the default order spelled out",
